@@ -91,7 +91,8 @@ def c_expect_poly(ctx, args):
         return {'kind': 'oracle', 'where': 'np:expect(%s) modified the observable it was given' % how, 'observed': str(osnap(obj))[:300], 'expected': str(o_before)[:300], 'tags': ['argument_modified']}
     if abs(complex(got2) - complex(got)) > 1e-12:
         return {'kind': 'oracle', 'where': 'np:expect(%s) returns another value when asked again' % how, 'observed': [complex(got2).real, complex(got2).imag], 'expected': [complex(got).real, complex(got).imag]}
-    if abs(complex(got) - want) > 1e-9:
+    scale = max([abs(complex(*x[2])) for x in terms] + [0.0]) if how != 'pauli' else 1.0
+    if abs(complex(got) - want) > 1e-9 * (scale if scale > 0 else 1.0):          # relative to the size of the coefficients: tiny observables have tiny, not zero, expectations
         return {'kind': 'oracle', 'where': 'np:expect(%s)' % how, 'observed': [complex(got).real, complex(got).imag], 'expected': [want.real, want.imag],
                 'tags': ['imag_phase'] if any(x[1] % 2 for x in terms) else []}
     if S.st_list(s) != before:
@@ -233,6 +234,9 @@ def run(ctx):
             terms = [[o[0], rng.randint(0, 3), [rng.randint(-3, 3), rng.randint(-3, 3)]] for o in obs]
             how = rng.choice(['pauli', 'monomial', 'poly', 'poly'])
             do(ctx, 'expect_poly', [t, terms, how], nontrivial=('p', it) if any(x[1] % 2 for x in terms) else None)
+            if it % 4 == 0:        # the same observable in tiny and in huge units (2^-40, 2^-50, 2^40: exact scalings)
+                sc = rng.choice([2.0 ** -40, 2.0 ** -50, 2.0 ** -34, 2.0 ** 40])
+                do(ctx, 'expect_poly', [t, [[x[0], x[1], [x[2][0] * sc, x[2][1] * sc]] for x in terms], rng.choice(['monomial', 'poly', 'poly'])], nontrivial=('psc', it))
             if it % 3 == 0:
                 do(ctx, 'expect_poly', [t, terms, rng.choice(['pauli', 'poly', 'poly']), 'torch'], nontrivial=('pt', it))
         ctx.res.count('rank%d' % t[1])
